@@ -211,16 +211,37 @@ theorem all_handler_paths_use_selected_transport (p : Proxy) (fi gfi : Int) (t :
   | sse => exact ⟨_, rfl, rfl⟩
   | default => exact ⟨_, rfl, rfl⟩
 
-/-- Which path a request takes depends on `Upgrade` and `Accept` only; without a websocket upgrade it is one of
-the two reverse-proxy branches. -/
-theorem handlerPath_no_upgrade (upgrade accept : String) (h1 : upgrade ≠ "websocket") (h2 : upgrade ≠ "Websocket") :
+/-- Which path a request takes depends on `Upgrade` and `Accept` only; unless `Upgrade` is `websocket` in some
+casing (`strings.EqualFold`) it is one of the two reverse-proxy branches. -/
+theorem handlerPath_no_upgrade (upgrade accept : String) (h : equalFoldWebsocket upgrade = false) :
     handlerPath upgrade accept = (if accept = "text/event-stream" then .sse else .default) ∧
     handlerPath upgrade accept ≠ .websocket := by
   unfold handlerPath
-  have : ¬ (upgrade = "websocket" ∨ upgrade = "Websocket") := by simp [h1, h2]
-  rw [if_neg this]
-  refine ⟨rfl, ?_⟩
+  rw [h]
+  refine ⟨by simp, ?_⟩
+  simp only [Bool.false_eq_true, if_false]
   split <;> simp
+
+/-- Every ASCII casing of `websocket` is the websocket path, and nothing of another length is. -/
+theorem handlerPath_websocket_casings (upgrade accept : String) :
+    (upgrade.toList.map Char.toLower = "websocket".toList → handlerPath upgrade accept = .websocket) ∧
+    (upgrade.toList.length ≠ 9 → handlerPath upgrade accept ≠ .websocket) := by
+  constructor
+  · intro h
+    have hlen : upgrade.toList.length = 9 := by
+      have := congrArg List.length h; simpa using this
+    have hall : (upgrade.toList.zip "websocket".toList).all (fun ct => foldsTo ct.1 ct.2) = true := by
+      rw [← h, List.all_eq_true]
+      intro ct hct
+      obtain ⟨i, hi, rfl⟩ := List.mem_iff_getElem.mp hct
+      simp [foldsTo]
+    have he : equalFoldWebsocket upgrade = true := by
+      unfold equalFoldWebsocket
+      rw [hall, hlen]; rfl
+    simp only [handlerPath, he, if_true]
+  · intro h
+    have : equalFoldWebsocket upgrade = false := by simp [equalFoldWebsocket, h]
+    exact (handlerPath_no_upgrade upgrade accept this).2
 
 /-- Hence on every handler path the transport carries the operator's configuration … -/
 theorem every_path_uses_config (s : Cell) (c : Cfg) (o : TargetOpts) (fi gfi : Int) (path : Path) (hws : path ≠ .websocket) :
@@ -392,6 +413,43 @@ theorem every_request_of_a_history (rt : Int → Nat → Int → RT) (hrt : Roun
       simp only [serveFull, hcar, hrt.inTime _ us[i].status us[i].delay (Or.inr hd), requestDeadline]
     rw [exchange_status rt tr requestDeadline us[i] (by rw [hs]; exact hst), hs]
 
+/-! ### The idle-connection limits (`proxy.maxconn`, `proxy.idleconntimeout`) -/
+
+/-- "… idle timeouts, idle connections per host … are the ones the HTTP proxy uses": of `n` connections to an
+upstream that become idle together the selected transport — default, skip-verify or per-route — keeps
+`min n proxy.maxconn` (zero standing for net/http's default of 2, a negative value for none), closes the others at
+once, and closes the kept ones `proxy.idleconntimeout` later (never, if none is configured). Relative to
+net/http's contract for the two fields (`poolFate`), sampled on real connections by the stream `c19.pool`. -/
+theorem pool_uses_configured_limits (s : Cell) (c : Cfg) (o : TargetOpts) (n : Nat) (doneAt : Int) :
+    let tr := selectTransport (newHTTPProxy (setConfig s c)) (addTarget (setConfig s c) o)
+    poolKept tr n = min n (effectiveMaxIdle c.maxConn) ∧
+    idleCloseAt tr doneAt = (if 0 < c.idleConnTimeout then some (doneAt + c.idleConnTimeout) else none) ∧
+    poolFate tr n doneAt =
+      List.replicate (n - min n (effectiveMaxIdle c.maxConn)) (some doneAt) ++
+      List.replicate (min n (effectiveMaxIdle c.maxConn))
+        (if 0 < c.idleConnTimeout then some (doneAt + c.idleConnTimeout) else none) ∧
+    (poolFate tr n doneAt).length = n := by
+  intro tr
+  obtain ⟨_, h2, h3, _, _⟩ := selected_transport_uses_config s c o
+  have hk : poolKept tr n = min n (effectiveMaxIdle c.maxConn) := by simp only [poolKept, tr, h3]
+  have hi : idleCloseAt tr doneAt = (if 0 < c.idleConnTimeout then some (doneAt + c.idleConnTimeout) else none) := by
+    simp only [idleCloseAt, tr, h2]
+  refine ⟨hk, hi, by simp only [poolFate, hk, hi], ?_⟩
+  simp only [poolFate, hk, List.length_append, List.length_replicate]
+  omega
+
+/-- D23 seen at the pool: with the self-assignment the operator's two values never arrive — two idle connections
+per upstream, kept for ever, whatever was configured. -/
+theorem self_assignment_pool (c : Cfg) (o : TargetOpts) (n : Nat) (doneAt : Int) :
+    let s := setConfigWith .parameter Cell.init c
+    poolKept (selectTransport (newHTTPProxy s) (addTarget s o)) n = min n 2 ∧
+    idleCloseAt (selectTransport (newHTTPProxy s) (addTarget s o)) doneAt = none := by
+  by_cases h : o.host ≠ "" ∧ o.host ≠ "dst" ∧ o.https
+  · simp [selectTransport, addTarget, h, newTransport, setConfigWith, Cell.init, Cfg.zero, poolKept, idleCloseAt, effectiveMaxIdle]
+  · by_cases h2 : o.tlsSkipVerify <;>
+      simp [selectTransport, addTarget, h, h2, newHTTPProxy, newTransport, setConfigWith, Cell.init, Cfg.zero, poolKept,
+        idleCloseAt, effectiveMaxIdle]
+
 /-! ### From what the operator wrote to the transports (`config.Load` → `SetConfig` → `NewTransport`) -/
 
 /-- What `load` returns, option by option. -/
@@ -528,7 +586,8 @@ example : serve roundTrip (selectTransport (newHTTPProxy (setConfig Cell.init cf
   fast_upstream_served roundTrip roundTrip_contract _ _ _ _ _ (by decide)
 example : serve roundTrip (newTransport (setConfigWith .parameter Cell.init cfgEx) none) 200 500000000 = (200, 500000000) := by decide
 example : handlerPath "" "text/event-stream" = .sse ∧ handlerPath "" "text/event-stream, */*" = .default ∧
-    handlerPath "websocket" "text/event-stream" = .websocket := by decide
+    handlerPath "websocket" "text/event-stream" = .websocket ∧ handlerPath "WebSocket" "" = .websocket ∧
+    handlerPath "websoc\u212Aet" "" = .websocket ∧ handlerPath "web\u017Focket" "" = .websocket ∧ handlerPath "websockets" "text/event-stream" = .sse := by decide
 example : (handlerFor (newHTTPProxy (setConfig Cell.init cfgEx)) 1000000000 0 (addTarget (setConfig Cell.init cfgEx) optsEx) .sse).map
     (·.transport.responseHeaderTimeout) = some 100000000 := by decide
 -- headers after 20 ms, then a 5 s body with a 100 ms response-header timeout: complete, at 5.02 s
@@ -557,6 +616,9 @@ example : parseDuration "1h2m3.004s" = some 3723004000000 ∧ parseDuration "-1.
 example : splitArgs ["-proxy.dialtimeout", "-5s", "--proxy.maxconn=7"] = some [("proxy.dialtimeout", "-5s"), ("proxy.maxconn", "7")] := by decide
 example : load { cmdline := [], env := [("FABIO_PROXY_DIALTIMEOUT", "3sec")], props := [] } = some { Cfg.defaults with dialTimeout := 0 } := by decide
 example : load { cmdline := [("proxy.dialtimeout", "3sec")], env := [], props := [] } = none := by decide
+-- five connections become idle at 1 s; proxy.maxconn = 3, idle timeout 15 s: two closed at once, three at 16 s
+example : poolFate (newTransport (setConfig Cell.init { cfgEx with maxConn := 3 }) none) 5 1000000000
+    = [some 1000000000, some 1000000000, some 16000000000, some 16000000000, some 16000000000] := by decide
 example : errorStatus .netTimeout = 504 ∧ errorStatus .netOther = 502 ∧ errorStatus .canceled = 499 := by decide
 
 end Fabio.Props.C19
